@@ -34,11 +34,13 @@ theorem response_snapshot_reparses (o : Opts) (meth : Bytes) (m : Msg) (hc : cap
     readResponse meth ((snapshot o m).message ++ rest) = .complete (resParsed m) rest := by
   rw [snapshot_message_eq_wire o m hc ht]; exact readResponse_wire meth m h rest hrest
 
-/-- What "equal to the original" means field by field: everything but the header list is `m`'s. -/
+/-- What "equal to the original" means field by field: everything but the header list is `m`'s
+(`ContentLength`: `parsedCL m`, which is `m.cl` except that a request with neither framing field is
+reported with length 0). -/
 theorem reparsed_request_fields (m : Msg) :
     let p := (reqParsed m).msg
     p.method = m.method ∧ p.url = m.url ∧ p.major = m.major ∧ p.minor = m.minor ∧ p.host = m.host ∧
-    p.te = m.te ∧ p.cl = m.cl ∧ p.body = m.body ∧ p.trailer = m.trailer := by
+    p.te = m.te ∧ p.cl = parsedCL m ∧ p.body = m.body ∧ p.trailer = m.trailer := by
   simp [reqParsed]
 
 theorem reparsed_response_fields (m : Msg) :
@@ -60,8 +62,9 @@ theorem reparsed_response_header_values (m : Msg) (k : Bytes) (hk : (exclOf m).c
 
 /-- A request in the reader's normal form re-parses to itself. -/
 theorem request_in_normal_form_reparses_to_itself (m : Msg) (h : WFReq m) (hn : parsedHdr m = m.hdr)
-    (rest : Bytes) : ∃ p, readRequest (wire m ++ rest) = .complete p rest ∧ p.msg = m :=
-  ⟨reqParsed m, readRequest_wire m h rest, reqParsed_msg_of_normal m hn⟩
+    (hc : parsedCL m = m.cl) (rest : Bytes) :
+    ∃ p, readRequest (wire m ++ rest) = .complete p rest ∧ p.msg = m :=
+  ⟨reqParsed m, readRequest_wire m h rest, reqParsed_msg_of_normal m hn hc⟩
 
 theorem response_in_normal_form_reparses_to_itself (meth : Bytes) (m : Msg) (h : WFRes meth m)
     (hn : resHdr m = m.hdr) (rest : Bytes) (hrest : lengthDelimited m = false → rest = []) :
@@ -109,8 +112,9 @@ def exResCL : Msg :=
 def exResEof : Msg :=
   { exResCL with cl := -1, hdr := [(strBytes "Etag", strBytes "\"x\"")] }
 
-example : WFReq exReqCL ∧ parsedHdr exReqCL = exReqCL.hdr := by decide
-example : WFReq exReqChunked ∧ parsedHdr exReqChunked = exReqChunked.hdr := by decide
+example : WFReq exReqCL ∧ parsedHdr exReqCL = exReqCL.hdr ∧ parsedCL exReqCL = exReqCL.cl := by decide
+example : WFReq exReqChunked ∧ parsedHdr exReqChunked = exReqChunked.hdr ∧ parsedCL exReqChunked = exReqChunked.cl := by
+  decide
 example : WFRes (strBytes "GET") exResCL ∧ resHdr exResCL = exResCL.hdr ∧ lengthDelimited exResCL = true := by decide
 example : WFRes (strBytes "GET") exResEof ∧ resHdr exResEof = exResEof.hdr ∧ lengthDelimited exResEof = false := by decide
 example : captures noOpts exReqCL = true ∧ exReqCL.trailer = none := by decide
